@@ -67,6 +67,7 @@ M = [
  ("c10_min_to_max", "src/block_handler/mod.rs", [("                    min(request_block.size(), max_block_size);", "                    core::cmp::max(request_block.size(), max_block_size);")], ["C10", "C09"]),
  ("c10_reserve_4", "src/block_handler/mod.rs", [("const BLOCK_OPTIONS_MAX_LENGTH: usize = 12;", "const BLOCK_OPTIONS_MAX_LENGTH: usize = 4;")], ["C10"]),
  ("c11_unwrap_response", "src/block_handler/mod.rs", [("                if request_block1.more {\n                    let response = request\n                        .response\n                        .as_mut()\n                        .ok_or_else(HandlingError::not_handled)?;", "                if request_block1.more {\n                    let response = request\n                        .response\n                        .as_mut()\n                        .unwrap();")], ["C11"]),
+ ("c11_reject_drops_buffer", "src/block_handler/mod.rs", [("                let cached_payload =\n                    state.cached_request_payload.as_mut().unwrap();\n", "                let mut taken =\n                    mem::take(&mut state.cached_request_payload).unwrap();\n                let cached_payload = &mut taken;\n"), ("                .map_err(HandlingError::internal)?;\n\n                if request_block1.more {", "                .map_err(HandlingError::internal)?;\n                state.cached_request_payload = Some(taken);\n\n                if request_block1.more {")], ["C11"]),
  ("c11_guard_16m", "src/block_handler/mod.rs", [("const MAXIMUM_UNCOMMITTED_BUFFER_RESERVE_LENGTH: usize = 16 * 1024;", "const MAXIMUM_UNCOMMITTED_BUFFER_RESERVE_LENGTH: usize = 16 * 1024 * 1024;")], ["C11"]),
  ("c11_guard_inverted", "src/block_handler/mod.rs", [("        if extend_len > maximum_reserve_len {", "        if extend_len < maximum_reserve_len {")], ["C11"]),
  ("c11_div_unguarded", "src/block_handler/mod.rs", [("                let num = reply_start_offset\n                    .checked_div(negotiated_block_size)", "                let num = Some(reply_start_offset / negotiated_block_size)")], ["C11"]),
@@ -77,6 +78,8 @@ M = [
  ("c13_more_shift2", "src/block_handler/block_value.rs", [("| u32::from(block_value.more) << 3", "| u32::from(block_value.more) << 2")], ["C13"]),
  ("c13_size_plus3", "src/block_handler/block_value.rs", [("1 << (self.size_exponent + 4)", "1 << (self.size_exponent + 3)")], ["C13"]),
  ("c13_u16_scalar", "src/block_handler/block_value.rs", [("        let scalar = u32::from(block_value.num) << 4", "        let scalar = u32::from(block_value.num & 0x0FFF) << 4")], ["C13"]),
+ ("c14_changed_creates", "src/observe.rs", [("                });\n            });\n    }\n\n    /// Resets the counter", "                });\n            })\n            .or_insert_with(|| Resource {\n                observers: Vec::new(),\n                sequence: 0,\n            });\n    }\n\n    /// Resets the counter")], ["C14"]),
+ ("c14_changed_sweeps_all", "src/observe.rs", [("        self.resources\n            .entry(resource.to_string())\n            .and_modify(|resource| {\n                resource.sequence += 1;", "        self.resources.values_mut().for_each(|r| {\n            r.observers.retain(|o| {\n                o.unacknowledged_messages <= u16::from(unacknowledged_limit)\n            })\n        });\n        self.resources\n            .entry(resource.to_string())\n            .and_modify(|resource| {\n                resource.sequence += 1;")], ["C14"]),
  ("c14_dereg_endpoint_only", "src/observe.rs", [("                x.endpoint == *observer_endpoint && x.token == *token", "                x.endpoint == *observer_endpoint")], ["C14"]),
  ("c14_register_matches_token", "src/observe.rs", [(".position(|x| x.endpoint == observer.endpoint)", ".position(|x| x.endpoint == observer.endpoint && x.token == observer.token)")], ["C14"]),
  ("c14_or_insert_on_notify", "src/observe.rs", [("            .and_modify(|resource| {", "            .or_insert(Resource {\n                observers: Vec::new(),\n                sequence: 0,\n            });\n        self.resources\n            .entry(resource.to_string())\n            .and_modify(|resource| {")], ["C14"]),
